@@ -229,6 +229,20 @@ CLAIMED["C34"] = (
     COMMON_NOTE + "os.* calls are opaque; the getters of the fs.Mode interface are assumed pure; the file system is not modelled.",
     "contract-based deductive verification (function literal under contract, call-site obligations, ghost call flags + SMT)", "6/C34")
 
+CLAIMED["C28"] = (
+    "Proof that the Directory message dirBuilder.walk hands to the digest computation lists its files, its directories and its symlinks in "
+    "strictly increasing name order (sorted and duplicate-free: three de-duplication loops with invariants over the shared `last` name, on top "
+    "of the assumed contract of sort.Slice for the less function given), whatever order the entries were added in; that hasChild answers exactly "
+    "'a child directory node of that name exists' (so dir() links a new directory into its parent exactly once); that buildEnv returns the "
+    "environment variables sorted by name; and that buildCommand writes the per-target `export K=V` prefix in sorted key order, not map order "
+    "(ghost: the key written by the previous Fprintf). Kernel-only: equality of whole digests over all insertion orders is a relation between "
+    "runs (permutation invariance of the construction as a whole) and protobuf marshalling is library code.",
+    COMMON_NOTE + "sort.Slice / sort.Strings / slices.SortFunc are assumed to reorder in place (multiset abstraction) and to establish the order "
+    "of the comparison function given; the in-place filter idiom (dir.Files = files[:0]; append) is modelled value-semantically (its aliasing "
+    "is harmless because the write index never passes the read index, which is not itself proved); pb.* message structs are modelled field by "
+    "field; uploadinfo/digest calls are opaque.",
+    "contract-based deductive verification (loop invariants over sort postconditions, call-site obligations, ghost last-key + SMT)", "6/C28")
+
 NOT_APPLICABLE = {
     "C05": "liveness / whole-run exit status under all schedules: no per-call contract expresses it (safety fragment is under C04)",
     "C30": "OS process groups, signals and wall-clock bounds; goroutines and select are outside the sequential contract model",
